@@ -56,6 +56,15 @@ def conventional_plus(r, idx):
         svc.rpc("RouteThing", rq.fqn, rp.fqn, http=("post", "/v1/{name=things/*}:route"), body="*",
                 routing=[("name", "{thing_id=things/*}"), ("table", None), ("table", "projects/*/{table_location=instances/*}/tables/*")])
         feats.append("explicit-routing")
+    if k in (1, 3):
+        rq = main.message("GetGadgetRequest")
+        rq.field("project_number", 1, "int64", required=True).field("gadget_id", 2, "string", required=True).field("archived", 3, "bool")
+        gd = main.message("Gadget"); gd.field("name", 1, "string").field("size", 2, "int32")
+        svc.rpc("GetGadget", rq.fqn, gd.fqn, http=("get", "/v1/projects/{project_number}/gadgets/{gadget_id}"), sigs=["project_number,gadget_id"])
+        rq2 = main.message("FlagGadgetRequest")
+        rq2.field("project_number", 1, "uint32", required=True).field("archived", 2, "bool", required=True).field("note", 3, "string")
+        svc.rpc("FlagGadget", rq2.fqn, gd.fqn, http=("post", "/v1/projects/{project_number}/flags/{archived}:flag"), body="*")
+        feats.append("non-string-path-fields")
     if k == 3:
         dep = File("acme/common/types.proto", "acme.common")
         mo = dep.message("Money"); mo.field("units", 1, "int64").field("currency", 2, "string")
@@ -156,8 +165,61 @@ def run_pure(ctx):
                "; ".join((failing + errors)[:6]))
 
 
+def segs_term(t):
+    return coq.lst("SStar" if x == "*" else ("SDStar" if x == "**" else f"SLit {coq.s(x)}") for x in (t or "*").split("/"))
+
+
+def run_sample_request(ctx, reqs):
+    """T2: HttpRule.sample_request of the real schema objects vs Model/Mock.sample_typed; oracle: every value validates."""
+    outs = gen.pmap(lambda r: gen.impl("c13_sample", {"request_b64": apigen.req_b64(r)}), reqs)
+    checks = []
+    kinds = {"str": "PStr", "int": "PInt", "bool": "PBool"}
+    for ri, out in enumerate(outs):
+        for rec in out:
+            if "error" in rec:
+                ctx.oblige(f"sample_request of {rec['method']} binding {rec['binding']}", False, rec["error"])
+                continue
+            if not rec["fields"] or any(f["kind"] == "other" for f in rec["fields"]):
+                continue
+            ctx.case({"sample_request": rec["uri"], "kinds": [f["kind"] for f in rec["fields"]]}, nontrivial=True,
+                     feature=["sample_request"] + [f"path-field-{f['kind']}" for f in rec["fields"]])
+            term = coq.lst(f"({coq.s(f['path'])}, {coq.s(f['attr'])}, {kinds[f['kind']]}, {segs_term(f['template'])})" for f in rec["fields"])
+
+            def val(f):
+                if f["kind"] == "str":
+                    return f"VS {coq.s(f['value'])}" if isinstance(f["value"], str) else "VB false"
+                if f["kind"] == "int":
+                    return f"VI {coq.nat(f['value'])}" if isinstance(f["value"], int) and not isinstance(f["value"], bool) else "VB false"
+                return f"VB {coq.b(f['value'])}" if isinstance(f["value"], bool) else "VI 0%nat"
+            want = coq.lst(f"({coq.s(f['path'])}, {val(f)})" for f in rec["fields"])
+            checks.append((f"req#{ri} {rec['method']} {rec['uri']}: sample_request = {[(f['path'], f['value']) for f in rec['fields']]}",
+                           f"list_eqb (pair_eqb String.eqb pval_eqb) (sample_typed 0 {term}) {want}"))
+            # oracle: the value substituted for each variable must validate against that variable's template
+            for f in rec["fields"]:
+                from google.api_core import path_template as pt
+                if not pt.validate(f["template"] or "*", str(f["value"])):
+                    ctx.violation(f"{rec['method']}: sample value {f['value']!r} for path field {f['path']} ({f['kind']}) does not match its template "
+                                  f"{f['template'] or '*'!r}", {"request_b64": apigen.req_b64(reqs[ri]), "method": rec["method"], "field": f})
+                if f["kind"] != "str" and isinstance(f["value"], str):
+                    ctx.violation(f"{rec['method']}: sample value for the {f['kind']} path field {f['path']} is the string {f['value']!r}",
+                                  {"request_b64": apigen.req_b64(reqs[ri]), "method": rec["method"], "field": f})
+    defs = ("Definition pval_eqb (a b : pval) : bool := match a, b with VS x, VS y => String.eqb x y | VI x, VI y => Nat.eqb x y "
+            "| VB x, VB y => Bool.eqb x y | _, _ => false end.\n")
+    failing, errors, nf = coq.eval_checks("c13sample", "From GV Require Import Model.Mock.", defs, checks)
+    ctx.oblige(f"T2 HttpRule.sample_request = Model/Mock.sample_typed on {len(checks)} http bindings", not failing and not errors and len(checks) > 0,
+               "; ".join((failing + errors)[:6]))
+
+
 def run(ctx):
     run_pure(ctx)
+    sample_reqs = []
+    for i in range(ctx.n(8, 40)):
+        try:
+            api, deps, _ = conventional_plus(env.rng("C13-api", i), i)
+            sample_reqs.append(api.request("", extra_files=deps))
+        except apigen.Invalid:
+            pass
+    run_sample_request(ctx, sample_reqs)
     jobs = []
     for i in range(ctx.n(2, 40)):
         r = env.rng("C13-api", i)
